@@ -138,6 +138,20 @@ package main
 //@   ensures window-given {C16}: implies(old(atlasLogStartDate) != 0 && old(atlasLogEndDate) != 0, result0 == old(atlasLogStartDate) && result1 == old(atlasLogEndDate))
 
 // ---------------------------------------------------------------------------------------------
+// helpers.go
+// ---------------------------------------------------------------------------------------------
+
+//@ func HashName
+//@   props C13
+//@   safety C07
+//@   assigns GoMaps
+//@   allocs Arr:Str, Arr:Int, Arr:Val
+//@   loop 1 invariant component-wise {C13}: MapP(redactedString, splitSeq(trimLeft(field, "$"), "."), 0, elems(hashedParts), off(hashedParts), _idx)
+//@   loop 1 invariant frame: shift(selems(parts), off(parts)) == splitSeq(trimLeft(field, "$"), ".") && len(parts) == splitCount(trimLeft(field, "$"), ".") && len(hashedParts) == len(parts) && base(hashedParts) > base(parts) && base(parts) > old(heapTop) && base(hashedParts) <= heapTop && unchangedBelow("Arr:Str") && unchangedBelow("Arr:Int") && unchangedBelow("Arr:Val") && redactedString == old(redactedString)
+//@   ensures function-of-name-and-prefix {C13,C12,C15}: result == HashNameSpec(redactedString, field)
+//@   ensures prefix-unchanged: redactedString == old(redactedString)
+
+// ---------------------------------------------------------------------------------------------
 // helpers.go (file system helper)
 // ---------------------------------------------------------------------------------------------
 
